@@ -1027,7 +1027,8 @@ impl Prop for C22 {
          seeded statement position, and delivers it to the real binary as a file, as -e arguments (one per line) or \
          split file + -e, with seeded flags (--no-prelude, --no-init, --pretty-print) and environment variations \
          (missing / directory / non-UTF-8 source file, corrupt config.toml, failing or good init.nbt, module path \
-         pointing nowhere, config with fetching-policy never or --no-config). Checked: exit status 0 iff no fault; \
+         pointing nowhere, config with fetching-policy never or --no-config; in 20 % of the cases the script imports \
+         a user module from <config dir>/numbat/modules, healthy or broken in one of five ways). Checked: exit status 0 iff no fault; \
          success => empty stderr, every marker exactly once, own line, in order, result line after the last print \
          if the script ends in an expression; failure => exit 1, diagnostic on stderr, none on stdout, no marker \
          after the faulty line (none of the same input for static faults), earlier successful input still printed, \
